@@ -1405,3 +1405,39 @@ package anytype
 //@     invariant vals: forall k str :: {r.val[k]} has(r.val, k) ==> wrapsS(r.val[k], cbret(VStr(k), valOf(ego.val[k])))
 //@     invariant none-bad: forall k str :: {ordpos[k]} has(ego.val, k) && ordpos[k] < idx ==> supp(cbret(VStr(k), valOf(ego.val[k])))
 //@     decreases ordn - idx
+
+// ---------------------------------------------------------------------------
+// Tree form writes (C11, C19): SetTF succeeds on every well-formed path, keeps the identities,
+// returns the registered value; the exact effect on the tree is decided by the bounded oracle.
+// ---------------------------------------------------------------------------
+
+//@ func (*object).SetTF [C11 C19]
+//@   requires invO(ego) && okArg(value)
+//@   assigns  tree
+//@   panics_iff !tfWFO(tf) || !supp(value)
+//@   ensures  fluent: result == ego.ptr && ego.ptr == old(ego.ptr) [C19 C11]
+//@   ensures  alive: invO(ego)
+
+//@ func (*list).SetTF [C11 C19]
+//@   requires invL(ego) && okArg(value)
+//@   assigns  tree
+//@   panics_iff !tfWFL(tf) || !supp(value)
+//@   ensures  fluent: result == ego.ptr && ego.ptr == old(ego.ptr) [C19 C11]
+//@   ensures  alive: invL(ego)
+//@   loop 1,2,3
+//@     assigns list(ego)
+//@     invariant range: 0 <= i && i <= index - count
+//@     invariant grown: invL(ego) && len(ego.val) == count + i && ego.ptr == old(ego.ptr)
+//@     decreases index - count - i
+
+//@ func (*object).UnsetTF [C11 C19]
+//@   requires invO(ego)
+//@   assigns  tree
+//@   panics_if true
+//@   ensures  fluent: result == ego.ptr && ego.ptr == old(ego.ptr) [C19 C11]
+
+//@ func (*list).UnsetTF [C11 C19]
+//@   requires invL(ego)
+//@   assigns  tree
+//@   panics_if true
+//@   ensures  fluent: result == ego.ptr && ego.ptr == old(ego.ptr) [C19 C11]
